@@ -18,7 +18,17 @@
 //	                becomes available" repeated to a fixed point (D5).            -> RECORDED (one case)
 //	AvailUp/Down i  one pod of ReplicaSet i becomes available / unavailable      (environment)
 //	Scale r         the user sets spec.replicas = r                              (environment)
-//	Raise p         the user / BatchRelease raises the partition                 (environment)
+//	Raise p         the user / BatchRelease raises the partition: strictly more new-revision pods
+//	                allowed at the current size, not fewer at any size          (environment)
+//
+// The state also remembers spec.replicas as of the last sync (r0, invisible to the controller):
+// R != r0 means the size is being changed even where the controller's desired-replicas bookkeeping
+// cannot see it (no active ReplicaSet); D1-D4 are claimed for the other Sync steps only.
+//
+// Domain: quick R <= 3; thorough R <= 5 with one old ReplicaSet, R <= 4 with two; partitions
+// {0..R, 0%, 34%, 50%, 99%, 100%}; maxSurge / maxUnavailable in {0, 1, 2, 25%, 50%} (not both 0); every
+// availability vector; initial states: only old ReplicaSets with R available pods, new revision
+// requested.
 //
 // Every recorded case is self-contained (the concrete objects are rebuilt from "in"), so `-only ID`
 // re-runs the same exploration and writes just that case.
@@ -28,10 +38,8 @@ import (
 	"context"
 	"encoding/json"
 	"fmt"
-	"os"
 	"runtime"
 	"runtime/debug"
-	"strconv"
 	"strings"
 	"sync"
 	"sync/atomic"
@@ -78,10 +86,14 @@ type State struct {
 	Nx   bool // the new ReplicaSet exists
 	N    RS
 	Olds []RS
+	// R0: spec.replicas as of the last sync. R != R0 = the user has changed the size and no sync has
+	// run since (the size is being changed even where the controller's annotation bookkeeping cannot
+	// see it); invisible to the controller.
+	R0 int
 }
 
 func (s State) key() string {
-	return fmt.Sprintf("%d|%s%d|%s%d|%s%d|%v|%v|%v", s.R, s.Pt, s.Pv, s.St, s.Sv, s.Ut, s.Uv, s.Nx, s.N, s.Olds)
+	return fmt.Sprintf("%d|%s%d|%s%d|%s%d|%v|%v|%v|%v", s.R, s.Pt, s.Pv, s.St, s.Sv, s.Ut, s.Uv, s.Nx, s.N, s.Olds, s.R0)
 }
 
 func (s State) clone() State {
@@ -335,6 +347,7 @@ var memo sync.Map
 var realSyncs int64
 
 func syncOf(s State) syncRes {
+	s.R0 = s.R // not visible to the controller; every sync ends a pending size change
 	k := s.key()
 	if r, ok := memo.Load(k); ok {
 		return r.(syncRes)
@@ -355,6 +368,7 @@ type convRes struct {
 // converge: the fair schedule (Sync, every pod becomes available) repeated to a fixed point
 func converge(s State) convRes {
 	cur, c := s.clone(), convRes{on: true}
+	cur.R0 = cur.R
 	budget := 6*(s.R+4) + 10
 	for c.steps < budget {
 		c.last = syncOf(cur)
@@ -390,6 +404,12 @@ func derived(s State) (L, surge, unav int) {
 	return int(deploymentutil.NewRSReplicasLimit(st.Partition, d)), int(deploymentutil.MaxSurge(d, &st)), int(deploymentutil.MaxUnavailable(d, &st))
 }
 
+// the real NewRSReplicasLimit of s's partition at deployment size r
+func limitAt(s State, r int) int {
+	d := &appsv1.Deployment{Spec: appsv1.DeploymentSpec{Replicas: utilpointer.Int32(int32(r))}}
+	return int(deploymentutil.NewRSReplicasLimit(ios(s.Pt, s.Pv), d))
+}
+
 // ---------------------------------------------------------------------------------------------
 // exploration
 
@@ -420,17 +440,18 @@ func main() {
 	if err != nil {
 		panic(err)
 	}
-	rmax, maxOld := 3, 2
+	// deployment sizes 1..rmax with one old ReplicaSet, 1..rmax2 with two old ReplicaSets
+	rmax, rmax2 := 3, 3
 	if fl.Tier == "thorough" {
-		rmax = 5
+		rmax, rmax2 = 5, 4
 	}
-	if v := os.Getenv("ADV_RMAX"); v != "" {
-		rmax, _ = strconv.Atoi(v)
+	rcap := func(s State) int {
+		if len(s.Olds) >= 2 {
+			return rmax2
+		}
+		return rmax
 	}
-	if v := os.Getenv("ADV_MAXOLD"); v != "" {
-		maxOld, _ = strconv.Atoi(v)
-	}
-	debug.SetGCPercent(400)
+	debug.SetGCPercent(200)
 	pcts := []int{0, 34, 50, 99, 100}
 	fences := []IOS{{"int", 0}, {"int", 1}, {"int", 2}, {"pct", 25}, {"pct", 50}}
 	partitions := func(r int) []IOS {
@@ -478,12 +499,12 @@ func main() {
 					if sg.T == "int" && sg.V == 0 && un.T == "int" && un.V == 0 {
 						continue
 					}
-					base := State{R: R, Pt: p.T, Pv: p.V, St: sg.T, Sv: sg.V, Ut: un.T, Uv: un.V, N: RS{0, 0, -1, -1}}
+					base := State{R: R, R0: R, Pt: p.T, Pv: p.V, St: sg.T, Sv: sg.V, Ut: un.T, Uv: un.V, N: RS{0, 0, -1, -1}}
 					_, surge, _ := derived(base)
 					one := base.clone()
 					one.Olds = []RS{{S: R, A: R, D: R, M: R + surge}}
 					add(one, -1, "")
-					for k := 1; k < R && maxOld >= 2; k++ {
+					for k := 1; k < R && R <= rmax2; k++ {
 						two := base.clone()
 						two.Olds = []RS{{S: k, A: k, D: R, M: R + surge}, {S: R - k, A: R - k, D: R, M: R + surge}}
 						add(two, -1, "")
@@ -512,7 +533,24 @@ func main() {
 	inOf := func(i int, act string) map[string]interface{} {
 		s := nodes[i].s
 		L, surge, unav := derived(s)
-		return map[string]interface{}{"act": act, "R": s.R, "pt": s.Pt, "pv": s.Pv, "st": s.St, "sv": s.Sv, "ut": s.Ut, "uv": s.Uv,
+		// the controller's own bookkeeping (isScalingEvent) and the number of active ReplicaSets, for
+		// reading and for known-finding signatures; the predicates recompute both in TLA+
+		scaling, active, oldsum := false, 0, 0
+		for j, r := range append(append([]RS(nil), s.Olds...), s.N) {
+			if j == len(s.Olds) && !s.Nx {
+				break
+			}
+			if r.S > 0 {
+				active++
+				if r.D >= 0 && r.D != s.R {
+					scaling = true
+				}
+			}
+			if j < len(s.Olds) {
+				oldsum += r.S
+			}
+		}
+		return map[string]interface{}{"act": act, "r0": s.R0, "pend": s.R != s.R0, "scaling": scaling, "active": active, "oldsum": oldsum, "R": s.R, "pt": s.Pt, "pv": s.Pv, "st": s.St, "sv": s.Sv, "ut": s.Ut, "uv": s.Uv,
 			"nx": s.Nx, "n": rsJSON(s.N), "olds": oldsJSON(s.Olds), "nold": len(s.Olds), "L": L, "surge": surge, "unav": unav,
 			"depth": nodes[i].depth, "path": pathOf(i)}
 	}
@@ -561,19 +599,23 @@ func main() {
 			}
 		}
 		// environment: the user scales the deployment
-		for r2 := 1; r2 <= rmax; r2++ {
+		for r2 := 1; r2 <= rcap(s); r2++ {
 			if r2 != s.R {
 				c := s.clone()
 				c.R = r2
 				add(c, i, fmt.Sprintf("Scale:%d", r2))
 			}
 		}
-		// environment: the partition is raised (strictly more new-revision pods allowed)
-		L0, _, _ := derived(s)
+		// environment: the partition is raised: strictly more new-revision pods allowed at the current
+		// size and not fewer at any size of the domain
 		for _, p := range partitions(s.R) {
 			c := s.clone()
 			c.Pt, c.Pv = p.T, p.V
-			if L1, _, _ := derived(c); L1 > L0 {
+			raise := limitAt(c, s.R) > limitAt(s, s.R)
+			for r := 1; r <= rmax && raise; r++ {
+				raise = limitAt(c, r) >= limitAt(s, r)
+			}
+			if raise {
 				add(c, i, fmt.Sprintf("Raise:%s%d", p.T, p.V))
 			}
 		}
@@ -621,7 +663,7 @@ func main() {
 		lo = hi
 	}
 	w.Close(fl.Only == 0, map[string]interface{}{"rmax": rmax, "states": len(nodes), "initial_states": initial, "max_depth": maxDepth,
-		"max_old": maxOld, "cases_by_action": counts, "real_syncs": realSyncs})
+		"rmax_two_old": rmax2, "cases_by_action": counts, "real_syncs": realSyncs})
 }
 
 type devNull struct{}
